@@ -692,6 +692,9 @@ pub fn render_tokens(doc: &Doc, r: &mut Rng, st: Style) -> Vec<Tok> {
     toks.v
 }
 
+/// render a list of content nodes (a replacement fragment)
+pub fn render_nodes(nodes: &[Node], r: &mut Rng, st: Style) -> String { let mut out = TokOut { v: vec![] }; for n in nodes { t_node(n, r, st, &mut out); } join(&out.v) }
+
 pub fn join(toks: &[Tok]) -> String { let mut s = String::new(); for t in toks { s.push_str(&t.s); } s }
 
 pub fn render(doc: &Doc, r: &mut Rng, st: Style) -> String { join(&render_tokens(doc, r, st)) }
